@@ -1,7 +1,8 @@
 /* fin_h.c -- C09(a): supernode numbers and L-subscript storage handed out by the REAL
  * NewNsuper / Glu_alloc(LSUB) to several workers in a symbolic interleaving (the two calls
  * are separate critical sections, exactly as in p?gstrf_snode_dfs / p?gstrf_column_dfs),
- * then the REAL countnz, fixupL and dCreate_SuperNode_Permuted.  E1, bit-precise.
+ * then the REAL p?gstrf_thread_finalize (countnz, fixupL, dCreate_SuperNode_Permuted / the refact = YES update of the
+ * caller's L and U, combination of the workers' info values, release of the scheduling storage).  E1, bit-precise.
  *
  * NS supernodes partition the N columns into consecutive ranges (sizes symbolic); supernode s
  * has rows = its own columns followed by nx[s] further (larger) rows.  Each supernode is
@@ -25,20 +26,25 @@ int vh_log_i; double vh_log_d;
 extern int_t Glu_alloc(const int_t, const int_t, const int_t, const MemType, int_t *, pxgstrf_shared_t *);
 extern void fixupL(const int_t, const int_t *, GlobalLU_t *);
 extern void countnz(const int_t, int_t *, int_t *, int_t *, GlobalLU_t *);
+extern void pdgstrf_thread_finalize(pdgstrf_threadarg_t *, pxgstrf_shared_t *, SuperMatrix *, int_t *, SuperMatrix *, SuperMatrix *);
+ExpHeader *dexpanders;     /* p?memory.c is not part of this query */
 int_t sp_ienv(int_t i) { return 1; }
 
 VH_MAIN
 {
     static int_t xsup[N + 1], xsup_end[N], supno[N + 1], lsub[LMAX], xlsub[N + 1], xlsub_end[N], perm_r[N];
-    static int_t xlusup[N + 1], xlusup_end[N], xusub[N + 1], xusub_end[N], xprune[N];
+    static int_t xlusup[N + 1], xlusup_end[N], xusub[N + 1], xusub_end[N], usub[1];
+    static double ucol[1];
+    int_t *xprune = (int_t *)malloc(N * sizeof(int_t));
     static double lusup[N * N + 1];
-    static pthread_mutex_t locks[NO_GLU_LOCKS];
+    pthread_mutex_t *locks = (pthread_mutex_t *)malloc(NO_GLU_LOCKS * sizeof(pthread_mutex_t));
     static procstat_t procstat[NWORK + 1];
     static GlobalLU_t Glu; static Gstat_t Gstat; static pxgstrf_shared_t sh;
     int_t fst[NS + 1], nx[NS], num[NS], off[NS], want[NS][N], len[NS];
     int stage[NS], s, k, j, e, inflight = 0, nextlu = 0;
     int_t nnzL = -1, nnzU = -1;
-    SuperMatrix L;
+    static SuperMatrix L, U, A; static superlumt_options_t opt; static int_t info; int refact;
+    pdgstrf_threadarg_t *ta = (pdgstrf_threadarg_t *)malloc(2 * sizeof(pdgstrf_threadarg_t));
 
     sh.Glu = &Glu; sh.Gstat = &Gstat; sh.lu_locks = locks; Gstat.procstat = procstat;
     Glu.xsup = xsup; Glu.xsup_end = xsup_end; Glu.supno = supno; Glu.lsub = lsub; Glu.xlsub = xlsub; Glu.xlsub_end = xlsub_end;
@@ -87,15 +93,38 @@ VH_MAIN
     for (s = 0; s < NS; ++s)
         for (j = 0; j < N; ++j) if (j >= fst[s] && j < fst[s + 1]) { xlusup[j] = nextlu; nextlu += len[s]; xlusup_end[j] = nextlu; xusub[j] = 0; xusub_end[j] = 0; }
 
-    /* what pdgstrf_thread_finalize does */
-    supno[N] = Glu.nsuper;
-    countnz(N, xprune, &nnzL, &nnzU, &Glu);
-    fixupL(N, perm_r, &Glu);
-    dCreate_SuperNode_Permuted(&L, N, N, nnzL, lusup, xlusup, xlusup_end, lsub, xlsub, xlsub_end, supno, xsup, xsup_end,
-                               SLU_SCP, SLU_D, SLU_TRLU);
+    /* the REAL pdgstrf_thread_finalize, first-time or re-factorization (then the caller's L and U exist already, bound to the
+       same arrays, with whatever counts the previous factorization left) */
+    Glu.ucol = ucol; Glu.usub = usub;
+    A.nrow = N; A.ncol = N;
+    refact = vh_int_in(0, 1);
+    opt.refact = refact ? YES : NO; opt.nprocs = 2;
+    ta[0].info = vh_int_in(0, N); ta[1].info = vh_int_in(0, N); ta[0].superlumt_options = &opt; ta[1].superlumt_options = &opt;
+#ifdef WITNESS
+    vh_assume(ta[0].info == 0 && ta[1].info == 0);
+#endif
+    if (refact) {
+        dCreate_SuperNode_Permuted(&L, N, N, vh_int(), lusup, xlusup, xlusup_end, lsub, xlsub, xlsub_end, supno, xsup, xsup_end, SLU_SCP, SLU_D, SLU_TRLU);
+        ((SCPformat *)L.Store)->nsuper = vh_int();
+        dCreate_CompCol_Permuted(&U, N, N, vh_int(), ucol, usub, xusub, xusub_end, SLU_NCP, SLU_D, SLU_TRU);
+    }
+    sh.info = &info; sh.xprune = xprune;
+    sh.inv_perm_r = (int_t *)malloc(N * sizeof(int_t)); sh.inv_perm_c = (int_t *)malloc(N * sizeof(int_t)); sh.ispruned = (int_t *)malloc(N * sizeof(int_t));
+    sh.spin_locks = (volatile int_t *)malloc(N * sizeof(int_t)); sh.pan_status = (pan_status_t *)malloc((N + 1) * sizeof(pan_status_t));
+    sh.fb_cols = (int_t *)malloc((N + 1) * sizeof(int_t)); Glu.map_in_sup = (int_t *)malloc((N + 1) * sizeof(int_t));
+    sh.taskq.queue = (qitem_t *)malloc(N * sizeof(qitem_t));
+    dexpanders = (ExpHeader *)malloc(4 * sizeof(ExpHeader));
+    {
+        int_t i0 = ta[0].info, i1 = ta[1].info;
+        pdgstrf_thread_finalize(ta, &sh, &A, perm_r, &L, &U);
+        vh_assert(info == (i0 == 0 ? i1 : i1 == 0 ? i0 : i0 < i1 ? i0 : i1), "the factorization reports the smallest non-zero info of its workers");
+    }
+    vh_assert(dexpanders == 0, "expander table released and cleared");
+    nnzL = ((SCPformat *)L.Store)->nnz;
+    vh_assert(U.nrow == N && U.ncol == N && U.Stype == SLU_NCP && ((NCPformat *)U.Store)->colbeg == xusub && ((NCPformat *)U.Store)->colend == xusub_end, "U header wraps the factorization's arrays");
     {
         SCPformat *Ls = (SCPformat *)L.Store;
-        int cnt = 0, s2;
+        int cnt = 0, cntU = 0, s2;
         vh_assert(Ls->nsuper == NS - 1, "number of supernodes");
         for (s = 0; s < NS; ++s) {
             int f = fst[s], b = Ls->rowind_colbeg[f], en = Ls->rowind_colend[f];
@@ -107,11 +136,12 @@ VH_MAIN
                 int b2 = Ls->rowind_colbeg[fst[s2]], e2 = Ls->rowind_colend[fst[s2]];
                 vh_assert(en <= b2 || e2 <= b, "row-subscript extents of different supernodes do not overlap");
             }
-            for (j = f; j < fst[s + 1]; ++j) cnt += len[s] - (j - f);
+            for (j = f; j < fst[s + 1]; ++j) { cnt += len[s] - (j - f); cntU += j - f + 1; }
         }
         vh_assert(Ls->nnz == cnt && nnzL == cnt, "nnz(L) equals the counted entries");
+        vh_assert(((NCPformat *)U.Store)->nnz == cntU, "nnz(U) equals the counted entries (here: the upper triangles of the supernodes)");
     }
-    free(L.Store);
+    free(L.Store); free(U.Store);
     VH_WITNESS();
     return 0;
 }
